@@ -83,7 +83,7 @@ def em_d_update(m, classes, ys, xss):
 def run(chk):
     chk.prove()
     r = gen.rng(chk.seed, "C09")
-    n_cases = 14 if chk.tier == "quick" else 120
+    n_cases = 14 if chk.tier == "quick" else 600
     terms = []
     for i in range(n_cases):
         ubm, s = fa.gen_ubm(r, C=r.choice([1, 2]), D=r.choice([1, 2, 3]))
